@@ -95,7 +95,7 @@ class Ctx:
                 listed.append((v, known[self.prop][k]))
             else:
                 new.append(v)
-        vdir = os.path.join(VERIF, "evidence", "violations")
+        vdir = os.path.join(evidence_dir(), "violations")
         os.makedirs(vdir, exist_ok=True)
         for fn in os.listdir(vdir):
             if fn.startswith(self.prop + "."):
@@ -181,8 +181,16 @@ def load_known():
     return out
 
 
+def evidence_dir():
+    """Runs against a scratch copy (VERIF_REPO, used by the self-test and by mutant trials)
+    must not overwrite the evidence of the real tree."""
+    if os.environ.get("VERIF_REPO", "/repo") != "/repo":
+        return os.path.join(VERIF, ".cache", "scratch-evidence")
+    return os.path.join(VERIF, "evidence")
+
+
 def write_evidence(prop, ev):
-    p = os.path.join(VERIF, "evidence", prop + ".json")
+    p = os.path.join(evidence_dir(), prop + ".json")
     os.makedirs(os.path.dirname(p), exist_ok=True)
     tmp = p + ".tmp%d" % os.getpid()
     with open(tmp, "w") as f:
